@@ -574,3 +574,7 @@ def run(chk):
         _c05.run_q7(j8, P, tu_, tu_.split('__')[0])
     run_j2(chk, P)
     run_j6(chk, P)
+    # the per-manager error code is decided by the manager alone (shared with C17)
+    from . import c17 as _c17
+    _c17.run_g7(chk, cf.PROGRAM[0] or cf.Program(), 'G7')
+
